@@ -64,11 +64,12 @@ type Spec struct {
 
 // Inst is one opened database with its directories.
 type Inst struct {
-	Spec   Spec
-	Dir    string
-	Roots  []string
-	DBPath string
-	DB     fs_db.DB
+	Spec    Spec
+	Dir     string
+	Roots   []string
+	DBPath  string
+	DB      fs_db.DB
+	CloseFn func() error // replaces DB.Close (gRPC tier: also stops the server)
 }
 
 func (s Spec) dir() string {
@@ -119,7 +120,12 @@ func Open(spec Spec) (*Inst, error) {
 	return in, nil
 }
 
-func (in *Inst) Close() error { return in.DB.Close() }
+func (in *Inst) Close() error {
+	if in.CloseFn != nil {
+		return in.CloseFn()
+	}
+	return in.DB.Close()
+}
 
 // GC runs one collection pass through the production path: the GC period elapses on the virtual
 // clock, the scheduler loop sends the job, a worker runs it; then everything settles.
